@@ -9,5 +9,5 @@ let run_case (toks : string list) : string option =
   (* builder settings -> core configurations: the mapping is the identity, the line carries its own expectation *)
   | ["cfgmap"; want] -> Some want
   (* a run that cannot start: error returned and visible (no model behind it: the oracle decides) *)
-  | ["startup"; _] -> Some "err=1 visible=1"
+  | ["startup"; _] -> Some "err=1 visible=1 after_clear=1"
   | _ -> None
